@@ -100,8 +100,14 @@ def gen_run(rng, prop, index, tier):
             else:
                 ops.append({"op": "bulk", "a": a, "how": "remove", "ks": [rng.randint(0, 9) for _ in range(rng.randint(1, 2))],
                             "by": rng.choice(("index", "object"))})
-        elif r < 0.94:
+        elif r < 0.92:
             ops.append({"op": "edit", "a": a, "k": rng.randint(0, 9)})
+        elif r < 0.95:
+            ops.append({"op": "touch_callers_list", "a": a, "how": rng.choice(("append", "append", "pop"))})
+        elif r < 0.97:
+            ops.append({"op": "poison_encode", "a": a, "how": rng.choice(("long", "enc"))})
+        elif r < 0.98:
+            ops.append({"op": "decode_dup_channels", "a": a})
         else:
             ops.append({"op": "encode", "a": a})
     return cfg, ops
